@@ -146,10 +146,12 @@ class Session:
                            witness_id="raises:%s:%s" % (last.name if last else "?", type(e).__name__), replay={"reproduced": True, "raised": repr(e)[:300]})
                 r.time_s = time.time() - t
                 return r
-            if in_repo and harness_like and not (last is not None and (last.line or "").lstrip().startswith("raise")
-                                                 and os.path.realpath(last.filename).startswith(repo_root)):
+            getattr_fallback = isinstance(e, AttributeError) and last is not None and last.name == "__getattr__"
+            if in_repo and harness_like and (getattr_fallback or not (last is not None and (last.line or "").lstrip().startswith("raise")
+                                                                      and os.path.realpath(last.filename).startswith(repo_root))):
                 # the code under verification used a stub / symbolic value in a way the contract stubs do not model
-                # (missing attribute, unsupported argument type ...): outside the engine's subset -> undecided, not a verdict
+                # (missing attribute, unsupported argument type ...): outside the engine's subset -> undecided, not a verdict.
+                # An AttributeError re-raised by a __getattr__ fallback hides such an error raised inside a property.
                 r = Result(UNKNOWN, "engine", "outside subset: the code used a contract stub in a way it does not model (%s: %s)\n%s"
                            % (type(e).__name__, str(e)[:200], traceback.format_exc()[-700:]))
                 r.time_s = time.time() - t
@@ -187,7 +189,10 @@ class Session:
         it shadows is vacuous (exit 3)."""
         r = self._run(name, fn)
         self.canaries.append((name, r))
-        if r.status != REFUTED:
+        if r.status == UNKNOWN and r.detail.startswith("outside subset"):
+            # the code left the engine's subset: the canary says nothing (the obligation it shadows is undecided as well)
+            self.undecided.append((name, r.detail[:300]))
+        elif r.status != REFUTED:
             self.canary_failures.append((name, "canary not refuted (%s): obligation may be vacuous. %s"
                                          % (r.status, r.detail[-600:])))
         return r
